@@ -364,3 +364,11 @@ impl FixtureDatabase {
         false
     }
 }
+
+// Verification hooks (see analyzer.rs).
+#[cfg(pytest_language_server_verif)]
+impl FixtureDatabase {
+    pub fn verif_is_available_fixture(&self, file_path: &Path, fixture_name: &str) -> bool {
+        self.is_available_fixture(file_path, fixture_name)
+    }
+}
